@@ -217,6 +217,18 @@ def boundary_exprs(tier, dims=(1, 2, 3)):
     return dedupe(out)
 
 
+def default_exprs(tier):
+    """shape functions that DECLARE a default for a variable which the parameter rows nevertheless supply (with other
+    values): the supplied value wins, row by row.  Kept out of solids(): `necessary_variables` of such a domain does
+    not list the defaulted variable, which C17 would read as a missing free variable.  Every expression also needs a
+    variable WITHOUT default: a shape function all of whose arguments are defaulted is evaluated without arguments by the
+    parameter-free sampling paths and must then return a tensor with a batch axis itself -- a calling convention, not a
+    question of where samples lie."""
+    c_def = C([aff(0, t=1), 0], affd(0.2, {"r0": 1.0}, r0=0.5))
+    i_def = I(0, affd(1.0, {"r0": 1.0}, t=0.5, r0=1.0))
+    return [c_def, i_def, B(c_def), Cut(SQ, C([0.5, 0.5], affd(0.1, {"r0": 1.0}, t=0.05, r0=0.2)), contained=True)]
+
+
 def dedupe(xs):
     seen, out = set(), []
     for x in xs:
